@@ -336,7 +336,8 @@ CLAIMED["C03"] = dict(
     text="C03_chunk_independence is proved for the tokenizer model for every input, every partition into chunks (empty and "
          "single-character chunks included), every start state, sink policy and exact_errors setting: the chunked session "
          "and the one-piece run deliver the same (token, line) sequence including parse errors and Script/EncodingIndicator "
-         "pause positions. The proof rests on three per-step theorems (a completed step is unaffected by appended input; a "
+         "pause positions; C03_chunked_then_end extends it across Tokenizer::end (pending character reference, final run at "
+         "EOF, eof_step loop): chunks then end() = one piece then end(). The proof rests on three per-step theorems (a completed step is unaffected by appended input; a "
          "suspended step has consumed everything and re-executes like the step on the concatenation; an invariant on "
          "temp_buf/ignore_lf/reconsume is preserved by all 73 states) and a simulation that ignores the dead current_char. "
          "The model is tied to tokenizer/mod.rs + char_ref/mod.rs by the tok correspondence on ~150k chunked cases per quick "
@@ -345,7 +346,7 @@ CLAIMED["C03"] = dict(
     note="Trusted: Lean kernel; the hand-written tokenizer model + tok correspondence; BufferQueue abstracted to a flat list "
          "(C13); bulk reads modelled per character (tokens compared after merging character runs). Not covered by the theorem: "
          "tree-builder level chunk independence (checked on the real code by the tree-builder engine), termination of runs "
-         "(C04), the end() sequence (compared by the correspondence).")
+         "(C04: separate theorem).")
 
 CLAIMED["C08"] = dict(
     engine="tok", design_ref="6.8",
